@@ -303,3 +303,52 @@ Definition relay_failed (rr : relay_result) : Prop :=
   | RelRaise _ | RelRaiseOther => True
   | _ => False
   end.
+
+(* ------------------------------------------- several messages in flight at once
+   One Queue serves every connection of every edge.  Everything Queue.enqueue
+   and Queue._run_policies compute for one message lives in locals of that call
+   (`results` of _run_policies, `envelopes`, `ids`, `results` of enqueue); the
+   objects shared between two calls are the store (ids are fresh, writes of
+   different messages do not touch each other), `active_ids` and the hub.  So
+   the model of concurrent hand-offs is: every message performs the events of
+   its OWN sequential run (model above), in order; a schedule decides whose
+   next event happens.  A policy that yields inside apply() shows as EvTicks
+   in front of the message's writes.  The harness checks this very fact on the
+   real code: the events of each client, taken out of the global log of a
+   concurrent run, are the per-message model run of that client. *)
+Inductive edge_kind : Type := ESmtp | EWsgi.
+Record msg := mkMsg { m_edge : edge_kind; m_pyields : N; m_bs : list wbeh }.
+
+Definition msg_trace (relay : bool) (m : msg) : trace :=
+  repeat EvTick (N.to_nat (m_pyields m)) ++
+  match m_edge m with
+  | ESmtp => fst (smtp_run relay (m_bs m))
+  | EWsgi => fst (wsgi_run relay (m_bs m))
+  end.
+
+(* take the next event of the i-th message, if it has one left *)
+Fixpoint pop (i : nat) (ps : list trace) : option (event * list trace) :=
+  match ps, i with
+  | [], _ => None
+  | p :: ps', O => match p with [] => None | e :: p' => Some (e, p' :: ps') end
+  | p :: ps', S i' =>
+      match pop i' ps' with Some (e, r) => Some (e, p :: r) | None => None end
+  end.
+
+(* an arbitrary schedule: a list of message numbers; picking a finished (or
+   non-existent) message is a no-op, so every list is a schedule *)
+Fixpoint run_sched (sched : list N) (ps : list trace) : list (N * event) :=
+  match sched with
+  | [] => []
+  | i :: s =>
+      match pop (N.to_nat i) ps with
+      | Some (e, ps') => (i, e) :: run_sched s ps'
+      | None => run_sched s ps
+      end
+  end.
+
+Definition concurrent_run (relay : bool) (msgs : list msg) (sched : list N) : list (N * event) :=
+  run_sched sched (map (msg_trace relay) msgs).
+
+Definition project (i : N) (g : list (N * event)) : trace :=
+  map snd (filter (fun p => fst p =? i) g).
